@@ -353,7 +353,7 @@ func TestRtmpPullClient(t *testing.T) {
 	resetNotes()
 	pbt.Run(t, pbt.Spec[RtmpSrvCase]{
 		ID: "C13", Name: "client-rtmp-pull", Gen: genRtmpSrvCase, Run: runRtmpPull, Classify: classifyRtmpSrv, Isolate: true,
-		Quick: 500, Thorough: 2500,
+		Quick: 80, Thorough: 1200,
 	})
 }
 
@@ -364,7 +364,7 @@ func TestRtmpPushClient(t *testing.T) {
 	defer func() { logic.RelayPushTimeoutMs = prev }()
 	pbt.Run(t, pbt.Spec[RtmpSrvCase]{
 		ID: "C13", Name: "client-rtmp-push", Gen: genRtmpPushCase, Run: runRtmpPush, Classify: classifyRtmpSrv, Isolate: true,
-		Quick: 300, Thorough: 1500,
+		Quick: 50, Thorough: 700,
 	})
 }
 
@@ -704,7 +704,7 @@ func TestRtspPullClient(t *testing.T) {
 	resetNotes()
 	pbt.Run(t, pbt.Spec[RtspSrvCase]{
 		ID: "C13", Name: "client-rtsp-pull", Gen: genRtspSrvCase, Run: runRtspPull, Classify: classifyRtspSrv, Isolate: true,
-		Quick: 400, Thorough: 2000,
+		Quick: 80, Thorough: 1000,
 	})
 }
 
@@ -889,6 +889,6 @@ func TestHttpflvPullClient(t *testing.T) {
 	resetNotes()
 	pbt.Run(t, pbt.Spec[FlvSrvCase]{
 		ID: "C13", Name: "client-httpflv-pull", Gen: genFlvSrvCase, Run: runFlvPull, Classify: classifyFlvSrv, Isolate: true,
-		Quick: 500, Thorough: 2000,
+		Quick: 150, Thorough: 1000,
 	})
 }
